@@ -122,6 +122,10 @@ class _HyperVolume:
                 hvol += h * (q.cargo[1] - pCargo[1])
                 if pCargo[0] < h:
                     h = pCargo[0]
+                elif p.ignore == 0:
+                    # p is weakly dominated in the first two dimensions by
+                    # a point that precedes it in the list of dimension 1
+                    p.ignore = 1
                 q = p
                 p = q.next[1]
             hvol += h * q.cargo[1]
@@ -147,16 +151,20 @@ class _HyperVolume:
             qPrevDimIndex = q.prev[dimIndex]
             if length > 1:
                 hvol = qPrevDimIndex.volume[dimIndex] + qPrevDimIndex.area[dimIndex] * (qCargo[dimIndex] - qPrevDimIndex.cargo[dimIndex])
+                if q.ignore >= dimIndex:
+                    qArea[dimIndex] = qPrevDimIndex.area[dimIndex]
+                else:
+                    qArea[dimIndex] = hvRecursive(dimIndex - 1, length, bounds)
+                    # q has the highest value in dimension dimIndex, so if it
+                    # is dominated in the dimensions below dimIndex - 1 it is
+                    # also dominated in the dimensions below dimIndex
+                    if q.ignore == dimIndex - 1:
+                        q.ignore = dimIndex
             else:
                 qArea[0] = 1
-                qArea[1:dimIndex+1] = [qArea[i] * -qCargo[i] for i in range(dimIndex)]
+                for i in range(dimIndex):
+                    qArea[i + 1] = qArea[i] * -qCargo[i]
             q.volume[dimIndex] = hvol
-            if q.ignore >= dimIndex:
-                qArea[dimIndex] = qPrevDimIndex.area[dimIndex]
-            else:
-                qArea[dimIndex] = hvRecursive(dimIndex - 1, length, bounds)
-                if qArea[dimIndex] <= qPrevDimIndex.area[dimIndex]:
-                    q.ignore = dimIndex
             while p is not sentinel:
                 pCargoDimIndex = p.cargo[dimIndex]
                 hvol += q.area[dimIndex] * (pCargoDimIndex - q.cargo[dimIndex])
@@ -170,7 +178,7 @@ class _HyperVolume:
                     q.area[dimIndex] = q.prev[dimIndex].area[dimIndex]
                 else:
                     q.area[dimIndex] = hvRecursive(dimIndex - 1, length, bounds)
-                    if q.area[dimIndex] <= q.prev[dimIndex].area[dimIndex]:
+                    if q.ignore == dimIndex - 1:
                         q.ignore = dimIndex
             hvol -= q.area[dimIndex] * q.cargo[dimIndex]
             return hvol
